@@ -44,9 +44,9 @@ PROPS["C13"] = dict(
         dict(harness="int2str_fast", mode="sweep64", kind="enum",
              quick=dict(shards=8, opts=dict(count=5000000)), thorough=dict(shards=16, opts=dict(count=40000000))),
     ],
-    rule="int8/uint8/int16/uint16: every value (x4 group characters; all 95 printable for the 8-bit types and a "
+    rule="int8/uint8/int16/uint16: every value (x4 group characters; all 256 char values incl. NUL for the 8-bit types and a "
          "sample of the 16-bit ones); int32/uint32: stride sweep in the quick tier, every one of the 2^32 values in "
-         "the thorough tier (16 shards); 32/64 bit: every 10^k+-2, 2^k+-2, limits x all 95 printable group characters; "
+         "the thorough tier (16 shards); 32/64 bit: every 10^k+-2, 2^k+-2, limits x all 256 group characters (NUL and non-ASCII included); "
          "64 bit: low-discrepancy walk over all magnitudes + rapidcheck-generated values (uniform bit width, then "
          "uniform value) with generated group characters. Each value is checked in 4 variants (plain/grouped x "
          "string/buffer) + round trip. Non-trivial = value needs at least one group character (|v|>=1000) or lies "
